@@ -39,6 +39,7 @@ type scriptConn struct {
 	eof     bool // the scripted peer closed
 	// write gating (C08): when gate != nil every Write announces itself and waits to be released
 	gate chan *gatedWrite
+	feed chan []byte // when set: Read blocks until bytes are fed
 }
 
 type gatedWrite struct {
@@ -53,10 +54,21 @@ func (c *scriptConn) Read(p []byte) (int, error) {
 		return 0, errors.New("use of closed network connection (scripted)")
 	}
 	if len(c.pending) == 0 {
-		if len(c.evs) == 0 {
+		if len(c.evs) == 0 && c.feed != nil {
+			// a socket that really blocks until the peer sends something
+			c.mu.Unlock()
+			b, ok := <-c.feed
+			c.mu.Lock()
+			if !ok {
+				return 0, errors.New("EOF")
+			}
+			c.pending = b
+		} else if len(c.evs) == 0 {
 			c.blocked = true
 			return 0, errBlocked
 		}
+	}
+	if len(c.pending) == 0 {
 		e := c.evs[0]
 		c.evs = c.evs[1:]
 		switch {
@@ -166,6 +178,42 @@ func runConn(id string, toks []string) (res string) {
 			out = append(out, "d:"+hx(buf[:m]))
 		}
 		return strings.Join(out, " ")
+	case "crsw":
+		// crsw <shared1> <shared2> <msg1> <msg2>   the keys of an encrypted connection are replaced (pair-verify again) while a
+		// Read is waiting for the next bytes; the bytes that then arrive are sealed under the new keys
+		k1, k2 := sharedKey(toks[1]), sharedKey(toks[2])
+		m1, m2 := unhex(toks[3]), unhex(toks[4])
+		sc, con, ctx := newScripted(nil)
+		sc.feed = make(chan []byte, 4)
+		s1, _ := newServerSession(k1)
+		s2, _ := newServerSession(k2)
+		sess := ctx.GetSessionForConnection(sc)
+		sess.SetCryptographer(s1)
+		readAll := func(want int) string {
+			var got []byte
+			buf := make([]byte, 4096)
+			for len(got) < want {
+				n, err := con.Read(buf)
+				if err != nil {
+					return "err:" + hx(got)
+				}
+				got = append(got, buf[:n]...)
+			}
+			return hx(got)
+		}
+		sc.feed <- refSealFrames(refKey(k1[:], "Control-Write-Encryption-Key"), 0, m1)
+		r1 := readAll(len(m1))
+		done := make(chan string, 1)
+		go func() { done <- readAll(len(m2)) }()
+		time.Sleep(30 * time.Millisecond) // the read is waiting on the socket now
+		sess.SetCryptographer(s2)
+		sc.feed <- refSealFrames(refKey(k2[:], "Control-Write-Encryption-Key"), 0, m2)
+		r2 := "stuck"
+		select {
+		case r2 = <-done:
+		case <-time.After(3 * time.Second):
+		}
+		return "r1=" + r1 + " r2=" + r2
 	}
 	return "badcase"
 }
